@@ -40,10 +40,11 @@ ASSUMPTIONS = [
 ]
 MIN_COUNTERS = {
     'quick': {'programs_compared': 250, 'comparisons': 1200, 'failing_builds': 150,
-              'residue_checks': 450, 'concurrent_builds': 200},
+              'residue_checks': 450, 'concurrent_builds': 200,
+              'concurrent_serialisations': 100},
     'thorough': {'programs_compared': 40000, 'comparisons': 160000,
                  'failing_builds': 30000, 'residue_checks': 60000,
-                 'concurrent_builds': 40000},
+                 'concurrent_builds': 40000, 'concurrent_serialisations': 1500},
 }
 
 KINDS = ['c01', 'c01', 'plain', 'mc', 'wf', 'variants', 'c01', 'mc']
@@ -144,6 +145,7 @@ def failing_build(gg, ns, rng, seed, acc, main, where):
                        'func-base-before', 'invalid', 'writer', 'func-exc-mid'])
     prog = gen(seed, 10 ** 6 + rng.randrange(5000))
     raised = None
+    sd_w = None
     try:
         if mode.startswith('func'):
             f = gg.make_func(prog, dict(ns))
@@ -172,9 +174,21 @@ def failing_build(gg, ns, rng, seed, acc, main, where):
         else:
             p2 = dict(prog)
             p2['name'] = 'n' * rng.choice([256, 300, 1000])
-            gg.build(p2, dict(ns)).as_bytes()
+            sd_w = gg.build(p2, dict(ns))
+            sd_w.as_bytes()
     except BaseException as e:      # noqa
         raised = type(e).__name__
+        if mode == 'writer' and sd_w is not None:
+            # the failed attempt must not leave bytes behind: asking again
+            # fails again
+            acc.count('residue_checks')
+            try:
+                b2 = bytes(sd_w.as_bytes())
+                acc.violation('C20/residue/bytes-returned-after-failed-write',
+                              {'mode': mode, 'raised': raised, 'second_request_len': len(b2),
+                               'where': where})
+            except Exception:
+                pass
     acc.count('failing_builds')
     acc.count(f"failing_builds_{mode.split(':')[0]}")
     if raised is None:
@@ -254,7 +268,13 @@ def run_shard(spec, acc):
         import sys
         from vf.inject import Injector, func_code
         from sc3.synth import synthdef as sdm, ugen as ugm
-        codes = [func_code(sdm.SynthDef._build), func_code(sdm.SynthDef._add_ugen),
+        from sc3.synth import _fmtrw
+        wcodes = [func_code(getattr(_fmtrw, n)) for n in dir(_fmtrw)
+                  if n.startswith('write_') and callable(getattr(_fmtrw, n))]
+        wcodes += [func_code(getattr(sdm.SynthDef, n)) for n in
+                   ('as_bytes', '_write_def', '_write_constants')
+                   if hasattr(sdm.SynthDef, n)]
+        codes = wcodes + [func_code(sdm.SynthDef._build), func_code(sdm.SynthDef._add_ugen),
                  func_code(sdm.SynthDef._finish_build),
                  func_code(sdm.SynthDef._optimize_graph),
                  func_code(sdm.SynthDef._topological_sort),
@@ -292,16 +312,90 @@ def run_shard(spec, acc):
                for k in range(nt)]
         for t in ths:
             t.start()
+        # one deadline for all of them (a build takes milliseconds): a thread
+        # still alive then hangs inside the library
+        deadline = time.time() + min(max(90.0, 0.25 * len(idx)), 0.7 * cfg.get('hard_timeout', 900))
         for t in ths:
-            t.join(600)
+            t.join(max(0.1, deadline - time.time()))
+        hung = [t for t in ths if t.is_alive()]
+        if hung:
+            import traceback
+            frames = sys._current_frames()
+            where = []
+            for t in hung[:2]:
+                fr = frames.get(t.ident)
+                if fr is not None:
+                    where.append([f'{f.name}@{f.filename.split("/")[-1]}:{f.lineno}'
+                                  for f in traceback.extract_stack(fr)[-6:]])
+            acc.violation('C20/concurrent-builds-hang', {'threads': nt, 'stacks': where})
+            inj.stop()
+            acc.extra['progs'] = out
+            return
+        serialise_phase(gg, seed, cfg, idx, acc, rng)
         inj.stop()
         acc.count('injected_yields', inj.injected)
         for e in errs[:3]:
             acc.violation('C20/harness-thread-raised', {'tb': e})
-        if any(t.is_alive() for t in ths):
-            acc.violation('C20/concurrent-builds-hang', {'threads': nt})
     acc.extra['progs'] = out
     acc.case(h64((cfg['name'], len(out))), nontrivial=False)
+
+
+def serialise_phase(gg, seed, cfg, idx, acc, rng):
+    """Definitions are built one after the other, then their bytes are asked for
+    from several threads at once (the writer does not run under the build lock):
+    (a) different definitions concurrently, (b) one not yet serialised
+    definition by all threads at once.  Every result must equal the bytes of a
+    fresh build serialised alone."""
+    ns = gg.namespace()
+    nt = max(2, min(4, cfg['nthreads']))
+    picks = [i for i in idx if i % 3 == 0][:60]
+    for rnd in range(0, len(picks), nt * 3):
+        batch = picks[rnd:rnd + nt * 3]
+        ref, defs = {}, {}
+        for i in batch:
+            prog = gen(seed, i)
+            try:
+                ref[i] = hashlib.sha256(bytes(gg.build(prog, dict(ns)).as_bytes())).hexdigest()
+                defs[i] = gg.build(prog, dict(ns))       # not serialised yet
+            except Exception:
+                ref.pop(i, None)
+        todo = sorted(defs)
+        if len(todo) < 2:
+            continue
+        shared = todo[-1]
+        got = {}
+        bar = threading.Barrier(nt)
+
+        def w(k):
+            try:
+                bar.wait(10)
+            except threading.BrokenBarrierError:
+                pass
+            for i in todo[:-1][k::nt]:
+                try:
+                    got[(k, i)] = hashlib.sha256(bytes(defs[i].as_bytes())).hexdigest()
+                except Exception as e:
+                    got[(k, i)] = 'raised ' + type(e).__name__
+            try:
+                got[(k, shared)] = hashlib.sha256(
+                    bytes(defs[shared].as_bytes())).hexdigest()
+            except Exception as e:
+                got[(k, shared)] = 'raised ' + type(e).__name__
+        ths = [threading.Thread(target=w, args=(k,), daemon=True) for k in range(nt)]
+        for t in ths:
+            t.start()
+        for t in ths:
+            t.join(60)
+        for (k, i), h in sorted(got.items()):
+            acc.count('concurrent_serialisations')
+            if i == shared:
+                acc.count('concurrent_serialisations_of_one_definition')
+            if h != ref[i]:
+                acc.violation('C20/bytes-differ/concurrent-serialisation/'
+                              + ('same-definition' if i == shared else 'different-definitions'),
+                              {'case': i, 'thread': k, 'got': h, 'alone': ref[i],
+                               'threads': nt})
+                break
 
 
 def failing_build_threadsafe(gg, ns, rng, seed, acc, main, lock):
